@@ -871,12 +871,8 @@ impl BitReader {
     /// is first advanced to the next byte boundary before decoding.
     ///
     /// Returns `Some(value)` on success, or `None` if the buffer is exhausted
-    /// before a complete VLQ value is read.
-    ///
-    /// # Panics
-    ///
-    /// Panics if the encoded integer is longer than [`MAX_VLQ_BYTE_LEN`]
-    /// bytes (bad input).
+    /// before a complete VLQ value is read or the encoded integer is longer
+    /// than [`MAX_VLQ_BYTE_LEN`] bytes (bad input).
     pub fn get_vlq_int(&mut self) -> Option<i64> {
         // Align to byte boundary once, then read bytes directly
         self.byte_offset = self.get_byte_offset();
@@ -887,12 +883,12 @@ impl BitReader {
         let mut v: i64 = 0;
 
         for (i, &byte) in buf.iter().enumerate() {
+            if shift >= MAX_VLQ_BYTE_LEN * 7 {
+                // more continuation bytes than any i64 needs: corrupt input
+                return None;
+            }
             v |= ((byte & 0x7F) as i64) << shift;
             shift += 7;
-            assert!(
-                shift <= MAX_VLQ_BYTE_LEN * 7,
-                "Num of bytes exceed MAX_VLQ_BYTE_LEN ({MAX_VLQ_BYTE_LEN})"
-            );
             if byte & 0x80 == 0 {
                 self.byte_offset += i + 1;
                 return Some(v);
